@@ -162,9 +162,34 @@ def judge(chk, sc, o):
                           'worker_exit is deferred until stop_and_join / pool exit, where it runs once for every instance that worked', input_class='deferred_exit')
 
 
+def pflow_tie(chk, scs, obs):
+    """how the parameters of every call reached the workers (parameter pills into every queue exactly when the call's parameters
+    differ from the recorded ones, what each worker took in which order, restarts, stops) must be a run of Mpire.ParamFlow.step"""
+    from harness.common import Driver
+    suite = 'parameter pills, chunks and restarts of keep-alive call sequences vs Mpire.ParamFlow.step'
+    lines, refs = [], []
+    for sc, o in zip(scs, obs):
+        if o.get('harness_error') or o.get('stuck') or any(x.get('outcome') != 'ok' for x in o.get('ops', [])) or \
+                any(op.get('consume') for op in sc['ops']):
+            continue
+        if 'pflow' not in o:
+            if o.get('pflow_error'):
+                chk.mismatch(suite + ': the trace could not be read', {'scenario': sc}, o['pflow_error'], 'a readable trace')
+            continue
+        lines.append('pflow ev=' + (','.join(o['pflow']) or '-'))
+        refs.append(sc)
+    for line, res, sc in zip(lines, Driver().run(lines), refs):
+        chk.count(suite, key=line, nontrivial=line.count('C:') >= 2, sample={'line': line[:300], 'model': res[:120]}, calls=min(line.count('C:'), 6),
+                  params_pills='T:' in line and ':P' in line, restarts=',R:' in line, stops=min(line.count(',X'), 3))
+        if not res.startswith('ok'):
+            chk.mismatch(suite, {'scenario': sc, 'line': line[:1500]}, 'events of the implementation', res)
+
+
 def run(chk):
     rng = chk.rng
     scs = ka_scenarios(rng, 300 if chk.tier == 'quick' else 5000)
+    for _sc in scs:
+        _sc['want_pflow'] = True
     for _sc in scs:
         if rng.random() < .25 and 'rules' not in _sc:
             _sc['rules'] = gen.schedule_rules(rng, _sc['pool']['n_jobs'])      # adversarial schedules
@@ -175,6 +200,7 @@ def run(chk):
                                             'setters': sum(1 for op in sc['ops'] if op['op'] == 'set')})
     for sc, o in zip(scs, obs):
         judge(chk, sc, o)
+    pflow_tie(chk, scs, obs)
     chk.assumptions += ['instance identity is the simulated thread/process object of the worker; worker_state identity is checked through a token stored in it']
 
     def search():
